@@ -399,31 +399,22 @@ def _f39(vio):
 
 @mechanism("F10d-reduce-outer-axis")
 def _f10d(vio):
-    return vio.get("kind") in ("wrong-value", "unexpected-error", "value-differs", "outcome-kind-differs") and \
-        _op_of(vio).get("op") == "reduce" and _axis_is_outer(vio)
-
-
-def _slice_items(vio):
-    op = _op_of(vio)
-    return op.get("items") or []
-
-
-def _empty_index_item(it):
-    if it.get("t") != "array":
+    """outer-axis reductions: known-bad for depth >= 3; for depth 2 (axis=0 of an array of lists) only the positional
+    reducers are known-bad, and only behind an IndexedArray or with missing lists (measured on the unchanged tree:
+    0 failures in 1500 depth-2 cases outside that sub-domain)"""
+    if vio.get("kind") not in ("wrong-value", "unexpected-error", "value-differs", "outcome-kind-differs"):
         return False
-    data = it.get("data")
-    if it.get("bool"):
-        flat = []
-
-        def rec(x):
-            if isinstance(x, list):
-                for y in x:
-                    rec(y)
-            else:
-                flat.append(x)
-        rec(data)
-        return not any(flat)
-    return isinstance(data, list) and len(data) == 0
+    op = _op_of(vio)
+    if op.get("op") != "reduce" or not _axis_is_outer(vio):
+        return False
+    from vlib import gen
+    T = (vio.get("case") or {}).get("T")
+    hi = gen.depth_of(T)[1]
+    if hi >= 3:
+        return True
+    positional = op.get("name") in ("argmin", "argmax")
+    missing_lists = _T_has(T, lambda t: t["t"] == "option" and t["e"]["t"] in ("list", "regular"))
+    return positional and (missing_lists or _has_class(vio, ("IndexedArray",)))
 
 
 @mechanism("F45-empty-index-array")
